@@ -14,6 +14,7 @@ mod beans;
 mod grow;
 mod local;
 mod ows;
+mod pws;
 mod sockio;
 mod sockopt;
 mod time;
@@ -24,6 +25,7 @@ pub fn lookup(name: &str) -> Option<AreaFn> {
     match name {
         "time" => Some(time::run),
         "ows" => Some(ows::run),
+        "pws" => Some(pws::run),
         "co" => Some(co::run),
         "conc" => Some(conc::run),
         "sched" => Some(sched::run),
